@@ -90,7 +90,8 @@ def run_ntrain(c):
     o = types.SimpleNamespace(
         training_samples=types.SimpleNamespace(samples=s, log_q=np.zeros((len(s), 2))),
         log_likelihood_threshold=c["thr"], min_samples=c["min_s"], replace_all=False, weighted_kl=False,
-        plot_training_data=False, proposal=types.SimpleNamespace(train=train),
+        plot_training_data=False, proposal=types.SimpleNamespace(train=train), iid_samples=None, draw_iid_live=False,
+        n_update=None, iteration=1, max_samples=None, nlive=len(s), draw_constant=True,
         training_time=__import__("datetime").timedelta())
     try:
         with np.errstate(all="ignore"):
